@@ -554,6 +554,36 @@ def run(ctx):
                         tags.append(("update", repr((lines, done[1]))))
                         cmds.append("dump"); exp.append(dbside.dump(done[0]))
                         tags.append(("tables after delete + update", repr((lines, dr[0], done[1]))))
+    # one LARGE file per run: 40 genes x 6 mRNAs x 5 exons (1200 grandchild pairs, 1480 lines), lines shuffled: the whole
+    # relation table against the Parent graph (oracle only)
+    rb = ctx.rng("c02", "large graph")
+    big = []
+    for g in range(40 if not ctx.thorough else 90):
+        big.append({"id": "G%d" % g, "parents": [], "ftype": "gene", "level": 0})
+        for m_ in range(6):
+            big.append({"id": "G%dm%d" % (g, m_), "parents": ["G%d" % g], "ftype": "mRNA", "level": 1})
+            for e_ in range(5):
+                big.append({"id": "G%dm%de%d" % (g, m_, e_), "parents": ["G%dm%d" % (g, m_)], "ftype": "exon", "level": 2})
+    for k, x in enumerate(big):
+        x.update(seqid="chr1", start=10 * k + 1, end=10 * k + 8, strand="+")
+    rb.shuffle(big)
+    bdb, brep = import_lines(ctx, gen_db.graph_lines(big), cfg, "big.gff3")
+    res.evaluations += 1
+    res.count("large_graph_%d_lines" % len(big))
+    if bdb is None:
+        res.oracle_failures.append(("create_db raised on a large GFF3 graph: " + brep, {"lines": len(big)}))
+    else:
+        bstored, bl1, bl2 = graph_oracle(big)
+        want_rels = {(p_, c_, 1) for p_, cs_ in bl1.items() for c_ in cs_ if p_ in bstored} | \
+                    {(p_, c_, 2) for p_, cs_ in bl2.items() for c_ in cs_}
+        got_rels = set(dbside.rels_of(bdb))
+        if got_rels != want_rels:
+            miss = sorted(want_rels - got_rels)[:5]
+            extra = sorted(got_rels - want_rels)[:5]
+            res.oracle_failures.append(("the relation table of a large GFF3 file (%d lines, %d grandchild pairs) is not the "
+                                        "Parent graph" % (len(big), sum(1 for x in want_rels if x[2] == 2)),
+                                        {"missing": miss, "unexpected": extra, "n_missing": len(want_rels - got_rels),
+                                         "n_unexpected": len(got_rels - want_rels)}))
     out = ctx.model(cmds)
     if out is not None:
         for c, m, e, (comp, inp) in zip(cmds, out, exp, tags):
